@@ -1,9 +1,9 @@
 """X01 (extension of C01, reaching into C03) -- the codec calls the base checks leave out (spec/CodecOps.tla).
 
 run_part(ck, tier) adds to the vlib.Check of C01:
-  * TLC: exhaustive checks of CodecOps: encoder sessions with Delete(k) and text framings with delimiters of 1..3
-    bytes (bare encoders), the array path with a consuming reader / ShiftFront / Prepare / raw data, the decoder
-    design of CobsDec with SizeQuery and Reset at every point,
+  * TLC: exhaustive check of CodecOps (one run, four parts): encoder sessions with Delete(k) and text framings with
+    delimiters of 1..3 bytes (bare encoders), the array path with a consuming reader / ShiftFront / Prepare / raw
+    data, the decoder design of CobsDec with SizeQuery and Reset at every point, longer frames of short blocks,
   * binding A: every transition of those models replayed into drv/codecops.c (repository encoders/decoders compiled
     at block limits 3/5, mpt_encode_string, a real mpt::encode_array object); where code and design differ TLC
     re-judges the recorded calls against Tier 1 alone (Trace_CodecOps, scaled constants),
@@ -21,14 +21,8 @@ import c01
 
 TAG = "x01"
 CFG = {
-    "quick": dict(
-        mc=["MC_CodecOps_enc.cfg", "MC_CodecOps_arr.cfg", "MC_CodecOps_dec.cfg", "MC_CodecOps_size.cfg"],
-        gen=[("enc", "Gen_CodecOps_enc.cfg"), ("arr", "Gen_CodecOps_arr.cfg"), ("dec", "Gen_CodecOps_dec.cfg")],
-        nsess=160, nsingle=120, ndec=120, nqueue=80),
-    "thorough": dict(
-        mc=["MC_CodecOps_enc_t.cfg", "MC_CodecOps_arr_t.cfg", "MC_CodecOps_dec_t.cfg", "MC_CodecOps_size_t.cfg"],
-        gen=[("enc", "Gen_CodecOps_enc_t.cfg"), ("arr", "Gen_CodecOps_arr_t.cfg"), ("dec", "Gen_CodecOps_dec_t.cfg")],
-        nsess=1500, nsingle=1000, ndec=1000, nqueue=700),
+    "quick":    dict(mc="MC_CodecOps.cfg",   gen="Gen_CodecOps.cfg",   nsess=160,  nsingle=120,  ndec=120,  nqueue=80),
+    "thorough": dict(mc="MC_CodecOps_t.cfg", gen="Gen_CodecOps_t.cfg", nsess=1500, nsingle=1000, ndec=1000, nqueue=700),
 }
 NAMES = {"cmd": "command", "cobs": "cobs", "cobs_r": "cobs/r", "zpe": "cobs/zpe", "zpe_r": "cobs/zpe+r"}
 DESIGN_ONLY = ("safe",)
@@ -74,14 +68,15 @@ def match(exp, obs, step, rec, prev):
     return None
 
 
-def parse_gen(out, enc):
-    behs = []
+def parse_gen(out):
+    """Gen_CodecOps lines: {"p": part, "h": [steps], "fin": expected completion (encoder parts)} -> behaviours by part"""
+    parts = {"enc": [], "arr": [], "dec": []}
     for d in vlib.parse_behaviours(out):
         beh = list(d["h"])
-        if enc:
+        if "fin" in d:
             beh.append({"a": "xfin", "arg": {"x": 0}, "exp": d["fin"]})
-        behs.append(beh)
-    return behs
+        parts["dec" if d["p"] == "size" else d["p"]].append(beh)
+    return parts
 
 
 def kind_label(a0):
@@ -282,6 +277,10 @@ def session(rng, i):
     elif fam == "text":
         dl, how = rng.choice(TEXT_DELIMS)
         arg.update(kind="text", dl=dl, how=how, path="direct", cap=len(dl) + rng.choice([0, 1, 5, 40]))
+        if rng.random() < 0.3:        # the line separators the library names (mpt_newline_string)
+            nl = rng.choice([1, 2, 3])
+            arg.update(nl=nl, dl={1: [13], 2: [10], 3: [13, 10]}[nl], how="buf" if nl == 3 else rng.choice(["ctx", "buf"]))
+            arg["cap"] = len(arg["dl"]) + rng.choice([0, 1, 5, 40])
     else:
         arg.update(kind="raw", path="array", dl=[])
     path = arg["path"]
@@ -336,12 +335,6 @@ def session(rng, i):
     return beh
 
 
-def fix_sessions(behs):
-    """A `fin` right behind a `delete` only makes sense when the deletion was refused; the driver answers `skip`
-    when nothing is in progress, which the specification accepts."""
-    return behs
-
-
 def single(rng, i):
     """one message that the framing may not admit: pushes that cut the delimiter, then the attempt to finish"""
     if i % 3 == 0:
@@ -384,7 +377,11 @@ def dec_schedule(rng, i, frames):
     arg = {"kind": kind, "m": 0, "slack": rng.choice([0, 2, 16, 64]), "name": NAMES[kind]}
     beh = [{"a": "dinit", "arg": arg}]
     stream = []
-    for _ in range(rng.choice([1, 2, 3])):
+    probe = i % 4 == 0
+    if probe and kind != "cmd":
+        # a frame of at least 255 short blocks first: the size of its unread rest is asked for below
+        stream += short_block_frame(rng, kind, rng.choice([255, 256, 300, 520]))
+    for _ in range(rng.choice([1, 2, 3]) if not stream else 0):
         r = rng.random()
         cand = [f for (k, f) in frames if k == kind]
         if kind != "cmd" and r < 0.35:
@@ -394,7 +391,7 @@ def dec_schedule(rng, i, frames):
         else:
             stream += [rng.choice([1, 2, 3, 65, 0xE0, 0xE2, 0xFF]) for _ in range(rng.choice([1, 5, 40]))] + [0]
     pos = 0
-    if i % 4 == 0:
+    if probe:
         # the first bytes are decoded, the rest of the stream is there but not yet read: ask for its size
         k = min(rng.choice([1, 1, 2, 3]), len(stream))
         beh.append({"a": "feed", "arg": {"data": stream[:k]}})
@@ -467,25 +464,28 @@ def nontrivial(beh):
 
 # --------------------------------------------------------------------------
 def run_part(ck, tier):
+    import time
     cfg = CFG[tier]
+    t0 = time.time()
     exe = build()
     notes = ck.notes.setdefault("x01_codec", {})
+    phases = notes.setdefault("wall_phases_s", {})
+    phases["build"] = round(time.time() - t0, 1)
 
-    # 1. exhaustive model checks (started now, collected at the end) and behaviour export side by side
-    pool = concurrent.futures.ThreadPoolExecutor(max_workers=8)
-    w = max(vlib.NCPU // 4, 2)
-    fmc = [pool.submit(vlib.tlc, "MC_CodecOps", c, workers=w, tag="MC_CodecOps_" + c) for c in cfg["mc"]]
-    fgen = [(what, pool.submit(vlib.tlc, "Gen_CodecOps", c, workers=3, tag="Gen_CodecOps_" + c)) for what, c in cfg["gen"]]
+    # 1. exhaustive model check (started now, collected at the end) and behaviour export side by side
+    pool = concurrent.futures.ThreadPoolExecutor(max_workers=2)
+    fmc = pool.submit(vlib.tlc, "MC_CodecOps", cfg["mc"], workers=max(vlib.NCPU // 2, 2), tag="MC_CodecOps_" + tier)
+    gen = vlib.tlc("Gen_CodecOps", cfg["gen"], workers=6, tag="Gen_CodecOps_" + tier)
+    if gen.error or gen.violation:
+        raise vlib.MachineryError("behaviour export failed: %s %s" % (gen.error, gen.violation))
+    parts = parse_gen(gen.out)
+    del gen
 
     # 2. binding A
     nt = set()
     samples = []
-    for what, f in fgen:
-        gen = f.result()
-        if gen.error or gen.violation:
-            raise vlib.MachineryError("behaviour export failed (%s): %s %s" % (what, gen.error, gen.violation))
-        behs = parse_gen(gen.out, what != "dec")
-        del gen
+    for what in ("enc", "arr", "dec"):
+        behs = parts[what]
         if not behs:
             raise vlib.MachineryError("behaviour export empty (%s)" % what)
         vacuity(behs, what, notes)
@@ -498,8 +498,9 @@ def run_part(ck, tier):
             if nontrivial(beh):
                 nt.add(json.dumps([(s["a"], s.get("arg")) for s in beh], sort_keys=True))
         samples.append(vlib.sample_repr(behs[len(behs) // 2][:8]))
-        del behs
+    del parts
 
+    phases["export+replay"] = round(time.time() - t0, 1)
     # 3. binding B: production constants, public paths, codecs by name
     rng = ck.rng
     sess = [session(rng, i) for i in range(cfg["nsess"])] + [single(rng, i) for i in range(cfg["nsingle"])]
@@ -539,11 +540,11 @@ def run_part(ck, tier):
     notes["production_answers"] = acts
     ck.cov["distinct_nontrivial"] += len(nt)
 
-    # 4. the exhaustive model checks that ran meanwhile
-    for c, f in zip(cfg["mc"], fmc):
-        res = f.result()
-        ck.add_tlc(res, "exhaustive " + c)
+    phases["production"] = round(time.time() - t0, 1)
+    # 4. the exhaustive model check that ran meanwhile
+    ck.add_tlc(fmc.result(), "exhaustive CodecOps " + cfg["mc"])
     pool.shutdown()
+    phases["model_checks_collected"] = round(time.time() - t0, 1)
     ck.cov["samples"] = ck.cov.get("samples", []) + samples[:2]
     notes["rule"] = ("A: one behaviour per transition of the TLC state graphs of CodecOps (encoder sessions under the view "
                      "framing / bytes to push / bytes of the message in progress / open block / free room / frame ends / "
